@@ -159,7 +159,7 @@ class Poly:
 # or size), and one that does not hold is caught with probability >= 1 - deg/p per trial.  No
 # polynomial is expanded, so whole pipeline steps cost seconds.  Nothing of brax/jax is executed:
 # the "inputs" are not physical states but the random point of the homomorphism.
-PREDICATE_KINDS = ('bool', 'isnan', 'isinf', 'any', 'all', 'allclose')
+PREDICATE_KINDS = ('bool', 'isnan', 'isinf', 'isfinite', 'any', 'all', 'allclose')
 FIELD = {'on': False, 'p': (1 << 61) - 1, 'vals': {}, 'rng': None, 'decide': None, 'bool_default': None}
 _ONE = None   # set below (Poly.const(1))
 
@@ -755,7 +755,7 @@ JNP = {
     'multiply': lambda a, b: asarr(a) * asarr(b), 'add': lambda a, b: asarr(a) + asarr(b), 'divide': lambda a, b: asarr(a) / asarr(b),
     'square': lambda a: asarr(a) * asarr(a), 'expand_dims': lambda a, ax: np.expand_dims(asarr(a), ax),
     'sin': unary('sin'), 'cos': unary('cos'), 'tanh': unary('tanh'), 'arctanh': unary('arctanh'), 'log': unary('log'), 'exp': unary('exp'),
-    'sqrt': unary('sqrt'), 'abs': unary('abs'), 'sign': unary('sign'), 'arccos': unary('arccos'), 'arcsin': unary('arcsin'), 'arctan': unary('arctan'), 'tan': unary('tan'), 'floor': unary('floor'), 'isnan': lambda x: elemwise(lambda v: False if Rat.lift(v).is_const() else uf('isnan', v), x), 'isinf': unary('isinf'), 'arctan2': lambda a, b: elemwise(_arctan2, a, b), 'logical_and': lambda a, b: asarr(a) * asarr(b), 'logical_not': lambda a: 1 - asarr(a), 'logical_or': lambda a, b: asarr(a) + asarr(b) - asarr(a) * asarr(b), 'repeat': lambda a, n, axis=None: np.repeat(asarr(a), n, axis=axis), 'transpose': lambda a, *ax: np.transpose(asarr(a), *ax), 'outer': lambda a, b: np.outer(asarr(a), asarr(b)), 'trace': lambda a: np.trace(asarr(a)), 'full': lambda shape, v, **k: np.full(shape if isinstance(shape, tuple) else (shape,), None, dtype=object) * 0 + Rat.lift(v) if False else _full(shape, v), 'any': lambda x, axis=None, **k: _any(x, axis), 'all': lambda x, axis=None, **k: _all(x, axis),
+    'sqrt': unary('sqrt'), 'abs': unary('abs'), 'sign': unary('sign'), 'arccos': unary('arccos'), 'arcsin': unary('arcsin'), 'arctan': unary('arctan'), 'tan': unary('tan'), 'floor': unary('floor'), 'isnan': lambda x: elemwise(lambda v: False if Rat.lift(v).is_const() else uf('isnan', v), x), 'isinf': unary('isinf'), 'isfinite': lambda x: elemwise(lambda v: True if Rat.lift(v).is_const() else uf('isfinite', v), x), 'arctan2': lambda a, b: elemwise(_arctan2, a, b), 'logical_and': lambda a, b: asarr(a) * asarr(b), 'logical_not': lambda a: 1 - asarr(a), 'logical_or': lambda a, b: asarr(a) + asarr(b) - asarr(a) * asarr(b), 'repeat': lambda a, n, axis=None: np.repeat(asarr(a), n, axis=axis), 'transpose': lambda a, *ax: np.transpose(asarr(a), *ax), 'outer': lambda a, b: np.outer(asarr(a), asarr(b)), 'trace': lambda a: np.trace(asarr(a)), 'full': lambda shape, v, **k: np.full(shape if isinstance(shape, tuple) else (shape,), None, dtype=object) * 0 + Rat.lift(v) if False else _full(shape, v), 'any': lambda x, axis=None, **k: _any(x, axis), 'all': lambda x, axis=None, **k: _all(x, axis),
     'maximum': lambda a, b: elemwise(lambda x, y: _minmax('max', x, y), a, b),
     'minimum': lambda a, b: elemwise(lambda x, y: _minmax('min', x, y), a, b),
     'roll': lambda a, shift, axis=None: np.roll(asarr(a), toint(shift), axis=axis),
